@@ -21,6 +21,7 @@ type Dumper struct {
 	Now   time.Time
 	Skip  func(t reflect.Type, field string) bool
 	Depth int
+	Caps  bool // also record the spare capacity of slices (hidden state that matters for aliasing between slices)
 }
 
 // KeyDumper lets harness-side objects (recorders, actors) provide their own compact key.
@@ -204,6 +205,9 @@ func (d *Dumper) dump(v reflect.Value, depth int) {
 			d.dump(v.Index(i), depth+1)
 		}
 		d.sb.WriteString("]")
+		if d.Caps && v.Kind() == reflect.Slice && v.Cap() > v.Len() {
+			fmt.Fprintf(&d.sb, "^%d", v.Cap()-v.Len())
+		}
 	case reflect.Map:
 		if v.IsNil() {
 			d.sb.WriteString("{}")
@@ -213,9 +217,9 @@ func (d *Dumper) dump(v reflect.Value, depth int) {
 		var items []kv
 		it := v.MapRange()
 		for it.Next() {
-			kd := &Dumper{seen: d.seen, Now: d.Now}
+			kd := &Dumper{seen: d.seen, Now: d.Now, Caps: d.Caps, Skip: d.Skip}
 			kd.dump(addressable(it.Key()), depth+1)
-			vd := &Dumper{seen: d.seen, Now: d.Now}
+			vd := &Dumper{seen: d.seen, Now: d.Now, Caps: d.Caps, Skip: d.Skip}
 			vd.dump(addressable(it.Value()), depth+1)
 			items = append(items, kv{kd.sb.String(), vd.sb.String()})
 		}
